@@ -219,7 +219,7 @@ func kernelWrites(r *hx.Rand, base, line uint64, seq bool, shortMask bool) []mem
 func gen(r *hx.Rand, tier string) []json.RawMessage {
 	nctl, nline, ntrace, nops := 60, 60, 110, 50
 	if tier == "thorough" {
-		nctl, nline, ntrace, nops = 600, 600, 1800, 90
+		nctl, nline, ntrace, nops = 500, 500, 800, 70
 	}
 	var out []json.RawMessage
 	add := func(in input) { out = append(out, hx.J(in)) }
